@@ -8,6 +8,9 @@ structure St where
   heap : Heap := #[]
   vars : List (Nat × Val) := []
   uid : Nat := 0
+  /-- foreign errors of value kinds (struct, string, int): Go's `==` is equality of the content, so equal (kind, message)
+      pairs share one identity -/
+  valueErrs : List (String × String) := []
   cloned : Bool := false   -- CloneWithPrefixMessage shares the rest of a chain: links then need not point forward
 
 def St.get (s : St) (k : Nat) : Val := match s.vars.lookup k with | some v => v | none => .nilIface
@@ -59,10 +62,22 @@ def exec (s : St) (k : Nat) (op : String) (args : List String) : St × String :=
   | "nil", [] => assign s k s.heap .nilIface
   | "tnil", [] => assign s k s.heap .typedNil
   | "fnil", [] => assign s k s.heap .foreignNil
+  | "fnil", [_] => assign s k s.heap .foreignNil   -- a typed nil of any nilable kind is the one notion `foreignNil`
   | "empty", [] => let r := newEmpty s.heap; assign s k r.1 r.2
-  | "plain", [m] =>
+  | "plain", [m] | "plain", [m, "ptr"] =>
     match strOfHex? m with
     | some m => assign { s with uid := s.uid + 1 } k s.heap (.plain s.uid m)
+    | none => (s, "bad-op")
+  | "plain", [m, kind] =>   -- a non-nil foreign error of another kind: still just a foreign error with a message
+    match strOfHex? m with
+    | some m =>
+      if kind == "struct" || kind == "string" || kind == "int" then
+        match s.valueErrs.findIdx? (fun p => p == (kind, m)) with
+        | some i => assign s k s.heap (.plain (1000000 + i) m)
+        | none => assign { s with valueErrs := s.valueErrs ++ [(kind, m)] } k s.heap (.plain (1000000 + s.valueErrs.length) m)
+      else if kind == "slice" || kind == "slice0" || kind == "map" || kind == "func" || kind == "chan" then
+        assign { s with uid := s.uid + 1 } k s.heap (.plain s.uid m)
+      else (s, "bad-op")
     | none => (s, "bad-op")
   | "new", [m] | "newf", [m] =>
     match strOfHex? m with
